@@ -687,25 +687,50 @@ pub struct Conformance {
     pub differences: Vec<String>,
 }
 
-/// the catch-up commands of one database are sent in the iteration order of a hash map (random
-/// per map instance); they name distinct keys, so their order carries no meaning: runs of
-/// version-less `replicate` / `replicate-remove` lines are compared as sorted blocks
-fn sort_catch_up_runs(lines: &[String]) -> Vec<String> {
-    let is_catch_up = |l: &String| (l.starts_with("replicate ") || l.starts_with("replicate-remove ")) && !l.starts_with("rp ");
+/// A catch-up (the answer to `replicate-since`) walks hash maps: the databases, and the keys of
+/// each database, come in the iteration order of a map instance, which differs between two
+/// processes and between two maps of one process. Its commands name distinct databases / keys, so
+/// that order carries no meaning. A maximal run of lines that are neither `rp`-wrapped nor part of
+/// the handshake is split into per-database blocks (a block starts at `create-db`), the lines after
+/// the first are sorted inside each block, and the blocks are sorted.
+fn canon_catch_up(lines: &[String]) -> (Vec<String>, bool) {
+    let is_plain = |l: &String| !(l.starts_with("rp ") || l.starts_with("auth ") || l.starts_with("set-primary ") || l.starts_with("set-secoundary ") || l.starts_with("replicate-since ") || l.starts_with("replicate-join "));
     let mut out: Vec<String> = vec![];
     let mut run: Vec<String> = vec![];
+    let mut any = false;
+    let mut flush = |run: &mut Vec<String>, out: &mut Vec<String>| {
+        if run.is_empty() {
+            return;
+        }
+        let mut blocks: Vec<Vec<String>> = vec![];
+        for l in run.drain(..) {
+            if l.starts_with("create-db ") || blocks.is_empty() {
+                blocks.push(vec![l]);
+            } else {
+                blocks.last_mut().unwrap().push(l);
+            }
+        }
+        for b in blocks.iter_mut() {
+            if b.len() > 2 {
+                b[1..].sort();
+            }
+        }
+        blocks.sort();
+        for b in blocks {
+            out.extend(b);
+        }
+    };
     for l in lines {
-        if is_catch_up(l) {
+        if is_plain(l) {
             run.push(l.clone());
+            any = true;
         } else {
-            run.sort();
-            out.append(&mut run);
+            flush(&mut run, &mut out);
             out.push(l.clone());
         }
     }
-    run.sort();
-    out.append(&mut run);
-    out
+    flush(&mut run, &mut out);
+    (out, any)
 }
 
 pub fn compare(real: &RealRun, model: &ModelRun) -> Conformance {
@@ -718,11 +743,18 @@ pub fn compare_opt(real: &RealRun, model: &ModelRun, catch_up_blocks: bool) -> C
     for n in names {
         match (real.links.get(n), model.links.get(n)) {
             (Some(r), Some(m)) => {
-                let (mut rf, rb) = canon_link(&r.0, &r.1);
-                let (mut mf, mb) = canon_link(&m.0, &m.1);
+                let (mut rf, mut rb) = canon_link(&r.0, &r.1);
+                let (mut mf, mut mb) = canon_link(&m.0, &m.1);
                 if catch_up_blocks {
-                    rf = sort_catch_up_runs(&rf);
-                    mf = sort_catch_up_runs(&mf);
+                    let (a, any_r) = canon_catch_up(&rf);
+                    let (b, any_m) = canon_catch_up(&mf);
+                    rf = a;
+                    mf = b;
+                    if any_r || any_m {
+                        // the replies follow the order of the commands they answer: compared as a multiset
+                        rb.sort();
+                        mb.sort();
+                    }
                 }
                 c.links_compared += 1;
                 c.lines_compared += rf.len() + rb.len();
